@@ -868,3 +868,10 @@ func ParamIndexName(v ssa.Value) string {
 	}
 	return ""
 }
+
+// EmptyLen is the atom "len(x) == 0" for x matched by pred, in any of its
+// spellings (== 0, < 1, <= 0 and the negated forms on the other edge).
+func EmptyLen(pred func(ssa.Value) bool) Atom {
+	l := IsLenOf(pred)
+	return AnyOf(Cmp(token.EQL, l, IsConstInt(0)), Cmp(token.LSS, l, IsConstInt(1)), Cmp(token.LEQ, l, IsConstInt(0)))
+}
